@@ -117,7 +117,9 @@ func (hs *clientHandshakeStateTLS13) handshake() error {
 		)
 		if subtle.ConstantTimeCompare(acceptConfirmation, hs.serverHello.random[len(hs.serverHello.random)-8:]) == 1 {
 			hs.hello = hs.echContext.innerHello
-			c.serverName = c.config.ServerName
+			// [uTLS] the name indicated to the server is the inner hello's server_name
+			// (hostnameInSNI of Config.ServerName: no trailing dot, nothing for an IP literal)
+			c.serverName = hs.echContext.innerHello.serverName
 			hs.transcript = hs.echContext.innerTranscript
 			c.echAccepted = true
 
@@ -296,7 +298,7 @@ func (hs *clientHandshakeStateTLS13) processHelloRetryRequest() error {
 			)
 			if subtle.ConstantTimeCompare(acceptConfirmation, hs.serverHello.encryptedClientHello) == 1 {
 				hello = hs.echContext.innerHello
-				c.serverName = c.config.ServerName
+				c.serverName = hs.echContext.innerHello.serverName // [uTLS] see handshake()
 				isInnerHello = true
 				c.echAccepted = true
 			}
